@@ -7,13 +7,11 @@
 package main
 
 import (
-	"bufio"
 	"encoding/json"
 	"fmt"
 	"os"
 	"os/exec"
 	"path/filepath"
-	"regexp"
 	"strconv"
 	"strings"
 	"time"
@@ -73,44 +71,6 @@ func run(dir string, env []string, name string, args ...string) (string, error) 
 	cmd.Env = env
 	out, err := cmd.CombinedOutput()
 	return string(out), err
-}
-
-type known struct {
-	status, property, match, commit, what string
-	re                                    *regexp.Regexp
-	observed                              int
-}
-
-func loadKnown() []*known {
-	f, err := os.Open(filepath.Join(root, "known_findings.txt"))
-	if err != nil {
-		return nil
-	}
-	defer f.Close()
-	var ks []*known
-	sc := bufio.NewScanner(f)
-	for sc.Scan() {
-		l := strings.TrimSpace(sc.Text())
-		if l == "" || strings.HasPrefix(l, "#") {
-			continue
-		}
-		fs := strings.Fields(l)
-		switch {
-		case fs[0] == "open:" && len(fs) >= 4 && strings.HasPrefix(fs[1], "property=") && strings.HasPrefix(fs[2], "match="):
-			k := &known{status: "open", property: fs[1][9:], match: fs[2][6:], what: strings.Join(fs[3:], " ")}
-			re, err := regexp.Compile("^(?:" + k.match + ")$")
-			if err != nil {
-				infra("known_findings.txt: bad pattern %q: %v", k.match, err)
-			}
-			k.re = re
-			ks = append(ks, k)
-		case fs[0] == "fixed:" && len(fs) >= 4:
-			ks = append(ks, &known{status: "fixed", property: strings.TrimPrefix(fs[1], "property="), commit: fs[2], what: strings.Join(fs[3:], " ")})
-		default:
-			infra("known_findings.txt: cannot parse line %q", l)
-		}
-	}
-	return ks
 }
 
 func main() {
@@ -243,14 +203,14 @@ func main() {
 	}
 
 	// known findings
-	ks := loadKnown()
+	ks := ev.LoadKnown(filepath.Join(root, "known_findings.txt"))
 	nviol := 0
 	var lines []string
 	for _, v := range merged.Violations {
 		matched := false
 		for _, k := range ks {
-			if k.status == "open" && k.property == id && k.re.MatchString(v.Sig) {
-				k.observed += v.N
+			if k.Status == "open" && k.Property == id && k.Re.MatchString(v.Sig) {
+				k.Observed += v.N
 				matched = true
 				break
 			}
@@ -268,9 +228,9 @@ func main() {
 	}
 	var knownOut []map[string]interface{}
 	for _, k := range ks {
-		if k.status == "open" && k.property == id {
-			fmt.Printf("KNOWN-FINDING: property=%s %s (observed=%d)\n", id, k.what, k.observed)
-			knownOut = append(knownOut, map[string]interface{}{"match": k.match, "what": k.what, "observed": k.observed})
+		if k.Status == "open" && k.Property == id {
+			fmt.Printf("KNOWN-FINDING: property=%s %s (observed=%d)\n", id, k.What, k.Observed)
+			knownOut = append(knownOut, map[string]interface{}{"match": k.Match, "what": k.What, "observed": k.Observed})
 		}
 	}
 
